@@ -258,6 +258,112 @@ theorem removeFirst_inv {rs : Ranges} (e : Nat) (hi : Inv rs) : Inv (removeFirst
       rw [this]; simp
 
 
+/-! ### `Add` split into its read and its apply, with the loop's `Remove` in between -/
+
+theorem addApply_addRead : ∀ (rs : Ranges) (h : Nat), addApply true rs (addRead rs h) h = add rs h
+  | [], h => by simp [addRead, headOf, addApply, add]
+  | [r], h => by
+    unfold addRead headOf add
+    cases hl : r.hs.getLast? with
+    | none => simp [addApply]
+    | some hd =>
+      have hne : r.hs ≠ [] := by intro e; rw [e] at hl; simp at hl
+      simp only
+      by_cases h1 : hd ≥ h
+      · simp [h1, addApply]
+      · by_cases h2 : h = hd + 1
+        · subst h2
+          have h3 : ¬ (hd + 1 ≤ hd) := by omega
+          simp [h3, addApply, appendLast, hne]
+        · simp [h1, h2, addApply]
+  | r :: r' :: rest, h => by
+    have ih := addApply_addRead (r' :: rest) h
+    have hr : addRead (r :: r' :: rest) h = addRead (r' :: rest) h := rfl
+    have ha : add (r :: r' :: rest) h = r :: add (r' :: rest) h := rfl
+    rw [hr, ha, ← ih]
+    cases addRead (r' :: rest) h <;> simp [addApply, appendLast]
+
+theorem addApply_cons2 (a r' : Rng) (rest : Ranges) (plan : AddPlan) (h : Nat) :
+    addApply true (a :: r' :: rest) plan h = a :: addApply true (r' :: rest) plan h := by
+  cases plan <;> simp [addApply, appendLast]
+
+theorem getLast?_drop_of_ne {xs : List Nat} {n : Nat} (h : xs.drop n ≠ []) : (xs.drop n).getLast? = xs.getLast? := by
+  rw [List.getLast?_drop]
+  have : ¬ xs.length ≤ n := by
+    intro hc; exact h (List.drop_eq_nil_of_le hc)
+  simp [this]
+
+/-- `Add(h)` has read the head of the last range, the sync loop's `Remove(e)` runs on the first range, `Add` applies its
+    decision: the invariant still holds (after the F42 repair) -/
+theorem add_split_inv : ∀ {rs : Ranges} (h e : Nat), Inv rs → Inv (addApply true (removeFirst rs e) (addRead rs h) h)
+  | [], h, e, _ => by
+    simp only [removeFirst, addRead, headOf, addApply, List.nil_append]
+    refine ⟨?_, by simp, by simp⟩
+    intro r hr
+    have : r = ⟨h, [h]⟩ := by simpa using hr
+    subst this; exact ⟨rfl, trivial⟩
+  | [r], h, e, hi => by
+    have hr : Inv [remove r e] := removeFirst_inv e hi
+    have wr : r.WF := hi.wf r (by simp)
+    show Inv (addApply true [remove r e] (addRead [r] h) h)
+    unfold addRead headOf
+    cases hl : r.hs.getLast? with
+    | none =>
+      have hre : r.hs = [] := List.getLast?_eq_none_iff.1 hl
+      have : (remove r e).hs = [] := by simp [remove, hre]
+      simp only [addApply]
+      refine (inv_snoc (pre := [remove r e])).2 ⟨hr, ⟨rfl, trivial⟩, ?_, ?_⟩
+      · intro a ha x hx; have : a = remove r e := by simpa using ha
+        subst this; rw [‹(remove r e).hs = []›] at hx; simp at hx
+      · intro a _ hne; simp at hne
+    | some hd =>
+      simp only
+      by_cases h1 : hd ≥ h
+      · simpa [h1, addApply] using hr
+      · have hmax : ∀ x ∈ (remove r e).hs, x ≤ hd := by
+          intro x hx
+          have hxr := remove_subset r e x hx
+          have := (contig_mem wr x).1 hxr
+          have := contig_getLast wr hl; omega
+        by_cases h2 : h = hd + 1
+        · subst h2
+          have h3 : ¬ (hd ≥ hd + 1) := by omega
+          simp only [h3, if_false, if_true, addApply, appendLast, Bool.and_true]
+          by_cases hem : (remove r e).hs = []
+          · simp only [hem, List.isEmpty_nil, if_true]
+            refine ⟨?_, by simp, by simp⟩
+            intro q hq
+            have : q = ⟨hd + 1, [hd + 1]⟩ := by simpa using hq
+            subst this; exact ⟨rfl, trivial⟩
+          · have hne' : (remove r e).hs.isEmpty = false := by simpa using hem
+            simp only [hne', Bool.false_eq_true, if_false]
+            have wr' := remove_wf e wr
+            have hlast : (remove r e).hs.getLast? = some hd := by
+              show (r.hs.drop _).getLast? = some hd
+              rw [getLast?_drop_of_ne hem]; exact hl
+            have hlen := contig_getLast wr' hlast
+            refine ⟨?_, by simp, by simp⟩
+            intro q hq
+            have : q = { remove r e with hs := (remove r e).hs ++ [hd + 1] } := by simpa using hq
+            subst this
+            show Contig (remove r e).start ((remove r e).hs ++ [hd + 1])
+            have : hd + 1 = (remove r e).start + (remove r e).hs.length := by omega
+            rw [this]; exact contig_append wr'
+        · simp only [h1, h2, if_false, addApply]
+          refine (inv_snoc (pre := [remove r e])).2 ⟨hr, ⟨rfl, trivial⟩, ?_, ?_⟩
+          · intro a ha x hx y hy
+            have : a = remove r e := by simpa using ha
+            subst this
+            have hy' : y = h := by simpa using hy
+            have := hmax x hx; omega
+          · intro a _ hne; simp at hne
+  | r :: r' :: rest, h, e, hi => by
+    have hrd : addRead (r :: r' :: rest) h = addRead (r' :: rest) h := rfl
+    show Inv (addApply true (remove r e :: r' :: rest) (addRead (r :: r' :: rest) h) h)
+    rw [hrd, addApply_cons2, addApply_addRead]
+    have := removeFirst_inv e (add_inv h hi)
+    exact this
+
 theorem prune_inv {rs : Ranges} (e : Nat) (hi : Inv rs) : Inv (prune rs e) := by
   have hboth : rs.Pairwise (fun a b => Sep a b ∧ EP a b) := hi.sep.and hi.ep
   refine ⟨?_, ?_, ?_⟩
